@@ -91,6 +91,107 @@ fn c01_elem(rng: &mut Rng, uniq: &mut u32) -> Elem {
     }
 }
 
+const INT_TYPES: &[PullTy] = &[
+    PullTy::I64,
+    PullTy::U64,
+    PullTy::Isize,
+    PullTy::Usize,
+    PullTy::I32,
+    PullTy::U32,
+    PullTy::I16,
+    PullTy::U16,
+    PullTy::I8,
+    PullTy::U8,
+];
+
+/// The bounded, targeted slice executed under Miri (and as smoke test): every integer target
+/// type x every boundary literal (the float fallback ends in `to_int_unchecked`), every list
+/// expression through both list iterators, and a few general hostile messages.
+fn targeted(seed: u64, run: u64) -> Trace {
+    let cfg = Config {
+        queue: QueueCfg::Array { cap: 2 },
+        controllers: 1,
+        tree: TreeDesc {
+            mandated: false,
+            app: vec![
+                TNode::Leaf {
+                    name: "CONVert".into(),
+                    default: false,
+                    h: 0,
+                },
+                TNode::Branch {
+                    name: "LIST".into(),
+                    default: false,
+                    sub: vec![TNode::Leaf {
+                        name: "ITERate".into(),
+                        default: true,
+                        h: 1,
+                    }],
+                },
+            ],
+        },
+    };
+    let mut t = base_trace("C01", seed, run, "targeted", cfg.clone());
+    let n_int = (INT_TYPES.len() * BOUND_LITERALS.len()) as u64;
+    let n_list = (2 * LIST_EXPRS.len()) as u64;
+    let msg = if run < n_int {
+        let ty = INT_TYPES[(run as usize) / BOUND_LITERALS.len()];
+        let lit = BOUND_LITERALS[(run as usize) % BOUND_LITERALS.len()];
+        Msg {
+            units: vec![Unit {
+                path: vec!["CONV".into()],
+                hsep: B::from(" "),
+                params: vec![Elem::Dec(lit.to_string())],
+                plan: Plan {
+                    pulls: vec![Pull { req: true, ty }],
+                    ..Default::default()
+                },
+                ..Default::default()
+            }],
+            end: B::new(),
+        }
+    } else if run < n_int + n_list {
+        let k = (run - n_int) as usize;
+        let ty = if k % 2 == 0 { PullTy::ChanList } else { PullTy::NumList };
+        Msg {
+            units: vec![Unit {
+                path: vec!["LIST".into()],
+                query: true,
+                hsep: B::from(" "),
+                params: vec![Elem::Expr(B::from(LIST_EXPRS[k / 2]))],
+                plan: Plan {
+                    pulls: vec![Pull { req: true, ty }],
+                    data: vec![Datum::U8(1)],
+                    ..Default::default()
+                },
+                ..Default::default()
+            }],
+            end: B::from("\n"),
+        }
+    } else {
+        let mut rng = Rng::new(mix(seed, "C01-targeted", run));
+        let tc = TreeCtx::new(&cfg.tree);
+        let mut uniq = 0u32;
+        let m = hostile_msg(&mut rng, &tc, &mut uniq);
+        let bytes = render(&m);
+        let corrupt = if rng.chance(1, 2) { gen_corruption(&mut rng, &bytes, 1, None) } else { vec![] };
+        t.steps.push(Step::Send(SendStep {
+            ctl: 0,
+            fmt: FmtCfg::Array { cap: 64 },
+            msg: m,
+            corrupt,
+        }));
+        return t;
+    };
+    t.steps.push(Step::Send(SendStep {
+        ctl: 0,
+        fmt: FmtCfg::Vec,
+        msg,
+        corrupt: vec![],
+    }));
+    t
+}
+
 /// grammar-generated multi-unit message whose handlers pull through typed conversions
 pub fn hostile_msg(rng: &mut Rng, tc: &TreeCtx, uniq: &mut u32) -> Msg {
     let k = *rng.pick(&[1usize, 1, 2, 3, 5, 8]);
@@ -168,9 +269,9 @@ impl Prop for C01 {
     }
     fn runs(&self, tier: Tier) -> u64 {
         match tier {
-            Tier::Quick => 120_000,
-            Tier::Thorough => 3_000_000,
-            Tier::Tiny => 24,
+            Tier::Quick => 600_000,
+            Tier::Thorough => 6_000_000,
+            Tier::Tiny => (INT_TYPES.len() * BOUND_LITERALS.len() + 2 * LIST_EXPRS.len() + 24) as u64,
         }
     }
     fn required_probes(&self) -> Vec<String> {
@@ -191,7 +292,10 @@ impl Prop for C01 {
         v.into_iter().map(String::from).collect()
     }
 
-    fn gen(&self, seed: u64, run: u64, _tier: Tier) -> Trace {
+    fn gen(&self, seed: u64, run: u64, tier: Tier) -> Trace {
+        if tier == Tier::Tiny {
+            return targeted(seed, run);
+        }
         let mut rng = Rng::new(mix(seed, "C01", run));
         let mut trng = Rng::new(mix(seed, "C01-tree", run / 64));
         let depth = *trng.pick(&[2usize, 3, 4]);
